@@ -133,7 +133,7 @@ def gen(run):
     for d in core.cube(run, [("count", [0, 1, 2, 31, 32]), ("s", ["A", "XY"]), ("size", [32, 80])]):
         cases.append(("string", (d["count"], d["s"], d["size"])))
     # read filter: "" and str(float(x)) for the DATA literal spellings
-    spell = ["1", "1.", "1.0", ".5", "0.5", "1E2", "1E+2", "1.5E-1", "-1", "+1", "-2.5", "0", "00012", "123456", "0.001", "12345678", "3.14159"]
+    spell = ["1", "1.", "1.0", ".5", "0.5", "1E2", "1E+2", "1.5E-1", "-1", "+1", "-2.5", "0", "00012", "123456", "0.001", "12345678", "3.14159", "9", "95", "900.25", "0.09", "99999", "-9", "8", "10", "90", "9.5E3", "2", "20", "3", "4", "5", "6", "7", "70", "-0.5"]
     seen = set()
     for sp in spell:
         t = str(float(sp))
